@@ -6,6 +6,7 @@
    family 2  [2; hnil; fn; c1..ck]               goz.Recover with fn / cleanups that return (0) or panic with the value (> 0)
              sub 0 = what runs, as (code, a, b) triples: 1 fn, 2 handler(a), 3 cleanup a, 4 handler("cleanup panic: b, index: a")
    family 3  [3; n; s; m]                       bulk stress, s submitters x m empty tasks, then Wait: [bodies run; handler calls; Wait returned]
+   family 4  [4; n; hk; vk; k]                 hostile panic values in a child process: [survived; reports; inside at once afterwards; Wait returned]
    sub 2 = relational judge on put_list case ++ put_list implementation-output -> [1] / [0]. *)
 From Coq Require Import List ZArith Bool Arith.
 From V Require Import Lib.Enc Gen.ConstsGoz Model.Limiter.
@@ -32,6 +33,11 @@ Definition recover_spec_out (hnil : bool) (fn : Z) (cs : list Z) : list Z :=
   flat_map (fun i => [3; Z.of_nat i; 0]) (seq 0 ran) ++
   match first_panic 0 cs with Some (j, w) => if hnil then [] else [4; Z.of_nat j; w] | None => [] end.
 
+(* family 4: k tasks panic with a value that is hostile to its printer (kind vk), handler hk (0 none, 1 goz.LogPanic, 2 func):
+   the process survives, every panic is reported once to a configured handler, the limit is available again in full and the
+   final Wait returns - whatever the value is (vk does not occur on the right). *)
+Definition hostile_out (n hk k : Z) : list Z := [1; (if hk =? 0 then 0 else k); Z.of_nat (eff_limit n); 1].
+
 Definition entry (sub : Z) (args : list Z) : list Z :=
   if sub =? 0 then
     match args with
@@ -39,6 +45,7 @@ Definition entry (sub : Z) (args : list Z) : list Z :=
     | 1 :: n :: s :: m :: seed :: pk :: maxin :: tr => stress_model n (s * m) maxin (dec_trace tr)
     | 2 :: hnil :: fn :: cs => recover_out (bz hnil) fn cs
     | [3; n; s; m] => [s * m; 0; 1]
+    | [4; n; hk; vk; k] => hostile_out n hk k
     | _ => [BADCASE]
     end
   else if sub =? 2 then
@@ -49,6 +56,7 @@ Definition entry (sub : Z) (args : list Z) : list Z :=
     | 1 :: n :: s :: m :: seed :: pk :: maxin :: tr => [zb (stress_spec n (s * m) seed pk maxin (dec_trace tr) out)]
     | 2 :: hnil :: fn :: cs => [zb (list_eqb out (recover_spec_out (bz hnil) fn cs))]
     | [3; n; s; m] => [zb (list_eqb out [s * m; 0; 1])]
+    | [4; n; hk; vk; k] => [zb (list_eqb out [1; (if hk =? 0 then 0 else k); Z.of_nat (eff_limit n); 1])]
     | _ => [BADCASE]
     end
   else [BADCASE].
